@@ -101,8 +101,9 @@ package executors
 //@   ensures implies(ok, ctFull && pe.inflight == old(pe.inflight) + 1 && ctRemoveAlls == old(ctRemoveAlls) + 1 && batch == ctBatch)
 //@   ensures implies(!ok, !ctFull && pe.inflight == old(pe.inflight) && ctRemoveAlls == old(ctRemoveAlls) && batch == nil)
 
+// spawning the flusher touches nothing itself (its goroutine body is the unit `backgroundFlush closure 0` below)
 //@ func (pe *PeriodicalExecutor) backgroundFlush
-//@   trusted
+//@   property C11
 //@   modifies nothing
 
 //@ func (pe *PeriodicalExecutor) enterExecution
